@@ -483,9 +483,12 @@ class SimpleJSONRPCRequestHandler(SimpleXMLRPCRequestHandler):
                 raw_chunk = self.rfile.read(chunk_size)
                 if not raw_chunk:
                     break
-                chunks.append(utils.from_bytes(raw_chunk))
+                # Store raw data as a chunk might not end on a character
+                # boundary
+                chunks.append(raw_chunk)
                 size_remaining -= len(raw_chunk)
-            data = "".join(chunks)
+            # Convert the whole body at once
+            data = utils.from_bytes(b"".join(chunks))
 
             try:
                 # Decode content
